@@ -976,7 +976,7 @@ pub fn run(args: &Args) -> i32 {
 
 // ---------------------------------------------------------------------------------------------
 // C03, two threads: the futures are polled on one thread while the ring is polled on another,
-// interleaved by the baton scheduler at every hook-B point. No model replay here (the model's
+// interleaved by the baton scheduler at every hook-B point. No model replay in THIS driver (the OpState model's
 // steps are whole API calls); the oracle is the property itself: after the race and a few more
 // `Ring::poll` calls every future that is still pending must have been woken since its last poll.
 
